@@ -1386,7 +1386,21 @@ impl TheRing<'_> {
 
         // TODO: the above fails to handle the fact that PlainSessionKey::Unknown will not compare correctly
 
-        let is_consistent = is_sks_consistent && is_skesk_consistent && is_pkesk_consistent;
+        let mut is_consistent = is_sks_consistent && is_skesk_consistent && is_pkesk_consistent;
+
+        if !abort_early {
+            // The caller asked for all provided secrets to be checked against each other:
+            // session keys obtained in different ways (public key, password, explicitly given)
+            // must agree with each other as well.
+            let mut found = pkesk_session_key
+                .iter()
+                .map(|(_, key)| key)
+                .chain(skesk_session_key.iter().map(|(_, key)| key))
+                .chain(sks_session_key.iter());
+            if let Some(first) = found.next() {
+                is_consistent &= found.all(|key| key == first);
+            }
+        }
 
         if !is_consistent {
             bail!("inconsistent session keys detected");
